@@ -27,6 +27,9 @@ def run(ctx, crate):
     rule_limiter_state_private(ctx, crate)
     rule_limiter_admission(ctx, crate)
     rule_limiter_constants(ctx, crate)
+    # "skipped draws lose nothing": a member's rendering is refreshed before the MultiProgress limiter decides
+    from .c02 import rule_multi_arm_unconditional
+    rule_multi_arm_unconditional(ctx, crate)
 
 
 def rule_update_before_gate(ctx, crate, rule="R-UPDATE-BEFORE-GATE"):
